@@ -71,7 +71,8 @@ def gen_args(rnd, k, long_ok=True):
              "range_step", "str_array", "str_slice_const", "str_slice_copied", "vec_string_fn", "string_array",
              "cow_array", "box_str", "debug_enum", "debug_enum_ref", "debug_tuple", "display_type",
              "display_and_debug", "float_array", "char_array", "bool_array", "empty_literal", "empty_vec",
-             "empty_range", "static_array_ref", "vec_macro", "long_array", "long_range"]
+             "empty_range", "static_array_ref", "vec_macro", "long_array", "long_range", "mixed_array",
+             "impl_iter_string_fn", "debug_enum_noncopy_ref"]
     kind = rnd.choice(kinds)
     if not long_ok and kind.startswith("long"):
         kind = "int_array"
@@ -127,6 +128,23 @@ def gen_args(rnd, k, long_ok=True):
         a["aux"] = [f"const STRS_{k}: &[&str] = &[%s];" % ", ".join(lit(s) for s in strs)]
         a.update(labels=strs, param="&str",
                  expr=f"STRS_{k}" if kind == "str_slice_const" else rnd.choice([f"STRS_{k}.iter().copied()", f"STRS_{k}.iter()"]))
+    elif kind == "mixed_array":
+        # literal, const item and function call side by side, as in the documentation
+        vals = [abs(v) for v in _ints(rnd, 3)]
+        vals = list(dict.fromkeys(vals))
+        while len(vals) < 3:
+            vals.append(max(vals) + 1)
+        a["aux"] = [f"const LEN_{k}: usize = {vals[1]};", f"fn len_{k}() -> usize {{ {vals[2]} }}"]
+        a.update(labels=[str(v) for v in vals], expr=f"[{vals[0]}, LEN_{k}, len_{k}()]", param="usize", arg_kind="int",
+                 elem_ok=True, elems=[str(vals[0]), f"LEN_{k}", f"len_{k}()"])
+    elif kind == "impl_iter_string_fn":
+        a["aux"] = [f"fn strings_{k}() -> impl Iterator<Item = String> {{ [%s].into_iter().map(String::from) }}" % ", ".join(lit(s) for s in strs)]
+        a.update(labels=strs, expr=f"strings_{k}()", param="&str")
+    elif kind == "debug_enum_noncopy_ref":
+        variants = rnd.sample(["Alpha", "Beta", "Gamma", "Delta"], rnd.randint(1, 4))
+        a["aux"] = [f"#[derive(Debug)] enum K_{k} {{ %s }}" % ", ".join(sorted(variants))]
+        a.update(labels=variants, expr="[%s]" % ", ".join(f"K_{k}::{v}" for v in variants), param=f"&K_{k}",
+                 recv='format!("{:?}", a)')
     elif kind == "vec_string_fn":
         a["aux"] = [f"fn mk_{k}() -> Vec<String> {{ vec![%s] }}" % ", ".join(f"{lit(s)}.to_string()" for s in strs)]
         a.update(labels=strs, expr=f"mk_{k}()", param=rnd.choice(["&str", "&String"]))
@@ -343,9 +361,22 @@ def gen_program(rnd, pid, crate, rich=True):
         b["attr_style"] = rnd.choice(["single", "single", "multi", "lead_comment", "other_attrs"])
         b["host"] = None
         benches.append(b)
+    # one external list shared by two benchmarks (the second refers to the first one's const)
+    for i, b in enumerate(benches):
+        if b["kind"] == "args" and b["arg"]["form"] in ("int_slice_const", "str_slice_const") and rnd.random() < 0.6:
+            mates = [j for j, h in enumerate(benches) if j != i and h["mods"] == b["mods"] and h["kind"] == "plain"]
+            if mates:
+                h = benches[rnd.choice(mates)]
+                h["kind"] = "args"
+                h["arg"] = dict(b["arg"], aux=[], eval="none", form="shared_external_list")
+                h["arg_kind"], h["args"] = h["arg"]["arg_kind"], list(h["arg"]["labels"])
+                h["ret"] = None
+                b["no_host"] = h["no_host"] = True
     # nesting: inside a plain fn body, a const block, or another benchmark's body
     for i, b in enumerate(benches):
         r = rnd.random()
+        if b.get("no_host"):
+            continue
         if r < 0.12:
             b["host"] = {"t": "fn", "k": i}
         elif r < 0.22:
@@ -505,18 +536,27 @@ def attr_chunks(rnd, macro, opts, style, entry, ign):
     if style == "lead_comment":
         form("attribute:not at line start")
         lead = rnd.choice(["/* bench */ ", "/**/ ", "/* x */  "])
+    mpath = "divan"
+    r = rnd.random()
+    if r < 0.08:
+        form("attribute path ::divan::")
+        mpath = "::divan"
+    elif r < 0.14 and not any(o.startswith("crate") for o in opts):
+        form("extern crate divan as sofa; #[::sofa::..(crate = ::sofa)]")
+        mpath, opts = "::sofa", ["crate = ::sofa"] + list(opts)
+    macro = f"{mpath}::{macro}"
     if not opts:
-        form(f"#[divan::{macro}] without options")
-        ch.append([0, lead + (f"#[divan::{macro}()]" if rnd.random() < 0.15 else f"#[divan::{macro}]"), (entry, len(lead))])
+        form(f"#[{macro}] without options")
+        ch.append([0, lead + (f"#[{macro}()]" if rnd.random() < 0.15 else f"#[{macro}]"), (entry, len(lead))])
     elif style == "multi":
         form("attribute:multi-line")
-        ch.append([0, lead + f"#[divan::{macro}(", (entry, len(lead))])
+        ch.append([0, lead + f"#[{macro}(", (entry, len(lead))])
         for o in opts:
             ch.append([1, o + ",", None])
         ch.append([0, ")]", None])
     else:
         trail = "," if rnd.random() < 0.15 else ""
-        ch.append([0, lead + f"#[divan::{macro}({', '.join(opts)}{trail})]", (entry, len(lead))])
+        ch.append([0, lead + f"#[{macro}({', '.join(opts)}{trail})]", (entry, len(lead))])
     if ign == "attr_after":
         ch.append([0, "#[ignore]", None])
     if style == "other_attrs" and rnd.random() < 0.5:
@@ -641,7 +681,15 @@ def generic_chunks(prog, rnd, gi):
         cf, cty = gen["const_form"], gen["const_ty"]
         if cf == "literal":
             form("consts = []" if not consts else "consts = [..] literal")
-            opts.append(f"consts = [{body}]")
+            el = [str(c) for c in consts]
+            if consts and rnd.random() < 0.35:
+                form("consts = [..] with a const item and a const fn call")
+                aux.append(f"const KC_{gi}: {cty} = {consts[0]};")
+                el[0] = f"KC_{gi}"
+                if len(consts) >= 2:
+                    aux.append(f"const fn kf_{gi}() -> {cty} {{ {consts[-1]} }}")
+                    el[-1] = f"kf_{gi}()"
+            opts.append(f"consts = [{', '.join(el)}]")
         elif cf == "ext_slice":
             form("consts = CONST (external slice)")
             aux.append(f"const CS_{gi}: &[{cty}] = &[{body}];")
@@ -789,6 +837,7 @@ def render_source(prog):
     root.add("         uncommon_codepoints, mixed_script_confusables, improper_ctypes_definitions, unpredictable_function_pointer_comparisons)]")
     root.add('#[path = "../common.rs"]')
     root.add("mod common;")
+    root.add("extern crate divan as sofa;")
     root.add("pub struct T0;")
     root.add("pub struct T1;")
     root.add("pub mod tymod { pub struct T2; pub mod inner { pub struct T3; } }")
